@@ -3,7 +3,7 @@ SPEC = {
     "id": "C04",
     "coq_targets": ["theories/Combine/Props_C04.vo", "theories/Combine/Findings.vo", "theories/Combine/Cases.vo"],
     "props": "theories/Combine/Props_C04.v",
-    "harness": [{"bin": "h_combine", "n": {"quick": 400, "thorough": 6000}, "args": ["--stream", "c04"],
+    "harness": [{"bin": "h_combine", "n": {"quick": 400, "thorough": 3000}, "args": ["--stream", "c04"],
                  "known_bits": {}}],
     "rule": "segment sets beaconed from 26 fixed small topologies (core mesh, parent/child chains, diamonds, parallel links, two ISDs, peering between siblings / across cores / across ISDs) and the repository's 20-AS default graph; all ordered src/dst pairs incl. core and on-segment ASes; each also with shuffled input lists, duplicated segments, all non-core segments passed, and refreshed (same hops, later timestamp) segments; a case is non-trivial when it returns at least one path; distinct by full case text",
     "assumptions": ["slice::sort_by is a stable sort (modelled as insertion sort)",
